@@ -41,6 +41,8 @@ INNER_DELIVERIES = {
     "var-in-two-subs": ("$(vp_out I $V)$(vp_out J)", "RS"),
     "sub-in-sub": ("$(vp_out I $(vp_out K))", "R"),
     "var-in-backquote-affixed": ("x`vp_out I $V`", "xR"),
+    "var-in-second-sub": ("x$(vp_out J)-$(vp_out I $V)", "xS-R"),
+    "var-in-second-backquote": ("x`vp_out J`-`vp_out I $V`", "xS-R"),
 }
 
 
